@@ -247,7 +247,17 @@ func (ms MatrixSetup) MarshalYAML() (any, error) {
 	if len(ms) == 1 && len(ms[""]) > 0 {
 		return ms[""], nil
 	}
-	return map[string][]string(ms), nil
+	// A dimension without values (os: null) is written as null, like the JSON
+	// form (a typed nil slice would be written as [] in YAML).
+	out := make(map[string]any, len(ms))
+	for k, v := range ms {
+		if v == nil {
+			out[k] = nil
+			continue
+		}
+		out[k] = v
+	}
+	return out, nil
 }
 
 // UnmarshalOrdered unmarshals from either []any or *ordered.MapSA.
